@@ -23,7 +23,7 @@ import z3
 
 from . import trace  # noqa: F401  (function coverage for evidence)
 from . import patches  # noqa: F401  (applies engine patches on import)
-from .inputs import ConcreteInputs, Inputs, Reject, Violation, jsonable
+from .inputs import ConcreteInputs, Inputs, Reject, Violation, jsonable, origin as _origin
 
 import crosshair.core_and_libs  # noqa: F401,E402
 from crosshair.core import (  # noqa: E402
@@ -38,28 +38,6 @@ from crosshair.core import (  # noqa: E402
 from crosshair.options import DEFAULT_OPTIONS  # noqa: E402
 from crosshair.statespace import CallAnalysis, RootNode, VerificationStatus  # noqa: E402
 from crosshair.util import IgnoreAttempt, NotDeterministic, UnexploredPath  # noqa: E402
-
-
-_STUB_NAMES = ("_File", "_Ctx", "FakeAiofiles", "FakeJson", "SyncOs", "_FakeOs", "_FakePath", "FakeWriter", "FakeBrokerClient", "RecTransport",
-               "SuspendingTransport", "LifeTransport", "DuckReader", "FakeClock", "StubAV", "Token", "SymNode", "SymChild", "ShellMutableMap")
-_REPO_SRC = os.path.join(os.environ.get("VERIF_REPO", "/repo"), "src") + os.sep
-
-
-def _origin(e):
-    """'escaped' if the exception was raised by the code under test (innermost frame in /repo/src) and
-    is not about one of our stubs lacking something; otherwise 'harness' (reported as inconclusive)."""
-    tb = e.__traceback__
-    last = None
-    while tb is not None:
-        last = tb
-        tb = tb.tb_next
-    if last is None:
-        return "harness"
-    fn = last.tb_frame.f_code.co_filename
-    text = str(e)
-    if fn.startswith(_REPO_SRC) and not any(nm in text for nm in _STUB_NAMES):
-        return "escaped"
-    return "harness"
 
 
 def run_concrete(fn, witness, part=None):
